@@ -19,7 +19,7 @@ def main(argv=None):
     ap.add_argument("--tier", default=os.environ.get("VERIF_TIER", "quick"), choices=["quick", "thorough"])
     ap.add_argument("--replay", default=None)
     ap.add_argument("--only", default=None, help="substring filter on obligation names (debugging; evidence marks it)")
-    ap.add_argument("--jobs", type=int, default=int(os.environ.get("VERIF_JOBS", "14")))
+    ap.add_argument("--jobs", type=int, default=int(os.environ.get("VERIF_JOBS", "8")))
     args = ap.parse_args(argv)
     seed = int(os.environ.get("VERIF_SEED", "0") or 0)
     prop = args.prop.upper()
@@ -94,6 +94,8 @@ def main(argv=None):
         "discharged": discharged, "nontrivial": nontrivial, "violations": len(violations),
         "known": len(known_hits), "inconclusive": len(inconclusive), "wall_s": wall,
         "filtered": bool(args.only)})
+    if args.only:
+        json.dump(ev, open("/tmp/rgverif-partial-%s.json" % prop, "w"), indent=1)
     if not args.only:
         os.makedirs(EVID, exist_ok=True)
         tmp = os.path.join(EVID, prop + ".json.tmp")
